@@ -69,7 +69,9 @@ pub fn len_near(limit: usize) -> BoxedStrategy<usize> {
 
 pub fn text_upto(limit: usize) -> BoxedStrategy<String> {
     let plain = (len_near(limit), 0u8..4, any::<u64>()).prop_map(|(l, f, s)| make_text(l, f, s));
-    if limit >= 32 {
+    if limit >= 64 {
+        prop_oneof![16 => plain, 2 => magic_text(), 1 => normalisable_text()].boxed()
+    } else if limit >= 32 {
         prop_oneof![9 => plain, 1 => magic_text()].boxed()
     } else {
         plain.boxed()
@@ -138,6 +140,28 @@ pub fn magic_text() -> BoxedStrategy<String> {
         t
     })
     .boxed()
+}
+
+/// attribute text in a form that an implementation might "clean up" on one path and not on another:
+/// quoted (RFC 3261 quoted-string, as REALM and NONCE are defined), with surrounding blanks, escaped
+/// characters, other case, a trailing NUL or line end. At most 44 bytes.
+pub fn normalisable_text() -> BoxedStrategy<String> {
+    ("[a-zA-Z. -]{0,30}", 0u8..12)
+        .prop_map(|(w, how)| match how {
+            0 => format!("\"{}\"", w),
+            1 => format!(" {} ", w),
+            2 => format!("\"{}", w),
+            3 => format!("{}\"", w),
+            4 => format!("\"{}\\\"x\"", w),
+            5 => format!("{}\t", w),
+            6 => format!("'{}'", w),
+            7 => format!("{}\r\n", w),
+            8 => format!("<{}>", w),
+            9 => format!("\"\"{}", w),
+            10 => "\"\"".to_string(),
+            _ => format!("{}\u{0}", w),
+        })
+        .boxed()
 }
 
 pub fn small_text() -> BoxedStrategy<String> {
@@ -927,6 +951,15 @@ pub enum WireAttr {
     /// a FINGERPRINT-typed attribute of the wrong length `len` (0..=12) whose first bytes hold the
     /// CRC value computed for exactly this layout (length field covering the padded attribute)
     FpLong { len: u8, xor: u32 },
+    /// a plain attribute of type `ty` whose value BEGINS with the HMAC (algo 0: SHA-1, 20 bytes;
+    /// 1: SHA-256 truncated to `vlen`) that an integrity attribute placed at this very position
+    /// would carry under the spec's key, followed by `extra` filler bytes: an authenticated fragment
+    /// of a shorter message, observed on the wire and pasted into a longer one
+    Echo { ty: u16, algo: u8, vlen: u8, extra: u8 },
+    /// the integrity attribute (of the last Echo's algorithm) carrying the last Echo's HMAC, i.e. a
+    /// value that is correct for an earlier, shorter prefix of the message and wrong where it
+    /// stands; a correct MESSAGE-INTEGRITY when no Echo precedes it
+    Replay,
 }
 
 #[derive(Debug, Clone, PartialEq, Eq, Hash, Serialize, Deserialize)]
@@ -966,9 +999,27 @@ impl WireSpec {
         let mut buf = refstun::header(self.mtype, 0, self.tid);
         let key = self.creds.key();
         let mut starts = vec![];
+        let mut last_echo: Option<(u8, Vec<u8>)> = None;
         for a in &self.attrs {
             starts.push(buf.len());
             match a {
+                WireAttr::Echo { ty, algo, vlen, extra } => {
+                    let start = buf.len();
+                    let mac: Vec<u8> = if *algo == 0 {
+                        crate::refimpl::hmac_sha1(&key, &refstun::hmac_input(&buf, start, 20)).to_vec()
+                    } else {
+                        let l = ((*vlen as usize).clamp(16, 32)) & !3;
+                        crate::refimpl::hmac_sha256(&key, &refstun::hmac_input(&buf, start, l))[..l].to_vec()
+                    };
+                    let mut v = mac.clone();
+                    v.extend(fill_bytes(*extra as usize, start as u64 ^ self.tid as u64, 0));
+                    refstun::push_tlv(&mut buf, *ty, &v, 0);
+                    last_echo = Some((*algo, mac));
+                }
+                WireAttr::Replay => match &last_echo {
+                    Some((algo, mac)) => refstun::push_tlv(&mut buf, if *algo == 0 { refstun::T_MI } else { refstun::T_SHA256 }, mac, 0),
+                    None => refstun::push_mi(&mut buf, &key),
+                },
                 WireAttr::Plain { ty, value, pad } => refstun::push_tlv(&mut buf, *ty, &value.0, *pad),
                 WireAttr::Mi { correct } => {
                     if *correct {
@@ -1164,7 +1215,9 @@ pub fn wire_spec_wellformed(max_plain: usize) -> BoxedStrategy<WireSpec> {
                 WireAttr::Plain { ty, .. } => *ty != refstun::T_MI && *ty != refstun::T_SHA256 && *ty != refstun::T_FP,
                 _ => true,
             });
-            attrs.extend(tails[t].iter().cloned());
+            let mut tail = tails[t].clone();
+            splice(&mut attrs, &mut tail, tid);
+            attrs.extend(tail);
             WireSpec {
                 mtype,
                 tid,
@@ -1174,6 +1227,35 @@ pub fn wire_spec_wellformed(max_plain: usize) -> BoxedStrategy<WireSpec> {
             }
         })
         .boxed()
+}
+
+/// One message in eight that ends in an integrity attribute becomes a splice: an earlier attribute
+/// echoes the HMAC an integrity attribute would have had at that position (an authenticated fragment
+/// observed on the wire), and the first integrity attribute of the tail replays that value. Such a
+/// message must not validate: its integrity attribute does not cover the bytes before it.
+pub fn splice(attrs: &mut Vec<WireAttr>, tail: &mut [WireAttr], tid: u128) {
+    if (tid >> 50) % 8 != 0 {
+        return;
+    }
+    let Some(first) = tail.iter().position(|a| matches!(a, WireAttr::Mi { .. } | WireAttr::Sha256 { .. })) else {
+        return;
+    };
+    let (algo, vlen) = match &tail[first] {
+        WireAttr::Sha256 { len, .. } => (1u8, *len),
+        _ => (0u8, 20u8),
+    };
+    let at = ((tid >> 53) as usize) % (attrs.len() + 1);
+    let vlen = if algo == 1 && (tid >> 60) % 3 == 0 { [16u8, 20, 24, 28][((tid >> 62) % 4) as usize] } else { vlen };
+    attrs.insert(
+        at,
+        WireAttr::Echo {
+            ty: if (tid >> 56) & 1 == 0 { 0xC0F0 + ((tid >> 57) % 8) as u16 } else { 0x8022 },
+            algo,
+            vlen,
+            extra: ((tid >> 58) % 13) as u8,
+        },
+    );
+    tail[first] = WireAttr::Replay;
 }
 
 pub fn wire_spec_mixed(max_attrs: usize) -> BoxedStrategy<WireSpec> {
